@@ -81,6 +81,8 @@ type UDP struct {
 	handle *vrt.Thread
 	Returned bool
 	socks  map[string]*vnet.UDPConn
+	extraPC []net.PacketConn
+	extraTh []*vrt.Thread
 }
 
 func NewUDP(keys []*Key, natTimeout time.Duration, real service.UDPMetrics) *UDP {
@@ -103,10 +105,25 @@ func (w *UDP) Start() {
 	})
 }
 
-// Stop closes the proxy socket and waits for Handle to return.
+// StartExtra binds one more proxy socket served by the SAME packet handler (a service with
+// several UDP listeners): a second Handle loop on a second thread.
+func (w *UDP) StartExtra(addr string) {
+	pc, err := vnet.ListenPacket("udp", addr)
+	if err != nil {
+		panic(err)
+	}
+	w.extraPC = append(w.extraPC, pc)
+	w.extraTh = append(w.extraTh, vrt.Spawn("udp-handle-"+addr, func() { w.H.Handle(pc) }))
+}
+
+// Stop closes the proxy socket(s) and waits for Handle to return.
 func (w *UDP) Stop() {
 	w.PC.Close()
+	for _, pc := range w.extraPC {
+		pc.Close()
+	}
 	vrt.Join(w.handle)
+	vrt.Join(w.extraTh...)
 }
 
 // Sock returns (binding on first use) the environment socket at addr.
